@@ -286,10 +286,11 @@ def Caps.get (w : Caps) (slot : Nat) : Option Nat := (w.find? (·.1 = slot)).map
 
 /-! ## Reference compiler
 
-State passing like the parser, but purely on lists: `pend = some n` means "the last atom emitted so far
-is `Skip(n)` and a following `?` may still be merged into it" — that atom is not yet part of the
-output.  `pend = none` after every other atom and right after `)` (the `sub_end` guard: a `?` is never
-merged into the last alternative). -/
+State passing like the parser, but purely on lists: `comp k pend items` are the atoms of `items` when
+`k` is the parser's `save` counter and `pend = some n` says "the last atom emitted so far is `Skip(n)`
+and a following `?` may still be merged into it" (that atom is then the first atom of the result, or
+has been merged).  `pend = none` after every other atom and right after `)` (the `sub_end` guard: a
+`?` is never merged into the last alternative). -/
 
 def flush : Option Nat → List Atom
   | none => []
@@ -308,54 +309,47 @@ def readAtom (signed : Bool) (w k : Nat) : Atom :=
   | false, 1 => .readU8 k | false, 2 => .readU16 k | false, _ => .readU32 k
 
 mutual
-/-- atoms emitted for the items (without the still pending skip) and the pending skip afterwards -/
-def compItems (k : Nat) (pend : Option Nat) : List Item → List Atom × Option Nat
-  | [] => ([], pend)
-  | .ws _ :: r => compItems k pend r
+/-- the atoms of a sequence, `pend` being the still mergeable `Skip` in front of it (included in the result) -/
+def comp (k : Nat) (pend : Option Nat) : List Item → List Atom
+  | [] => flush pend
+  | .ws _ :: r => comp k pend r
   | .any :: r =>
     match pend with
     | some n =>
-      if n ≠ 0 ∧ n < 255 then compItems k (some (n + 1)) r
-      else let (as, p) := compItems k (some 1) r; (.skip n :: as, p)
-    | none => compItems k (some 1) r
+      if n ≠ 0 ∧ n < 255 then comp k (some (n + 1)) r      -- `*skip += 1`
+      else .skip n :: comp k (some 1) r
+    | none => comp k (some 1) r
   | .skip n :: r =>
-    if n = 0 then compItems k pend r
-    else let (as, p) := compItems k (some (n % 256)) r; (flush pend ++ rangext n ++ as, p)
+    if n = 0 then comp k pend r                           -- `[0]` emits nothing
+    else flush pend ++ rangext n ++ comp k (some (n % 256)) r
   | .range a b :: r =>
-    let lo := if a = 0 then flush pend else flush pend ++ rangext a ++ [.skip (a % 256)]
-    let (as, p) := compItems k none r
-    (lo ++ rangext (b - a) ++ .many ((b - a) % 256) :: as, p)
-  | .byte b :: r => let (as, p) := compItems k none r; (flush pend ++ .byte b :: as, p)
+    (if a = 0 then flush pend else flush pend ++ rangext a ++ [.skip (a % 256)])
+      ++ rangext (b - a) ++ .many ((b - a) % 256) :: comp k none r
+  | .byte b :: r => flush pend ++ .byte b :: comp k none r
   | .str bs :: r =>
     -- an empty text emits nothing: the last atom stays what it was
-    if bs = [] then compItems k pend r
-    else let (as, p) := compItems k none r; (flush pend ++ bs.map (fun c => Atom.byte c.toNat) ++ as, p)
-  | .jump j :: r => let (as, p) := compItems k none r; (flush pend ++ j.atom :: as, p)
-  | .save :: r => let (as, p) := compItems (k + 1) none r; (flush pend ++ .save k :: as, p)
-  | .aligned n :: r => let (as, p) := compItems k none r; (flush pend ++ .aligned n :: as, p)
-  | .readI w :: r => let (as, p) := compItems (k + 1) none r; (flush pend ++ readAtom true w k :: as, p)
-  | .readU w :: r => let (as, p) := compItems (k + 1) none r; (flush pend ++ readAtom false w k :: as, p)
-  | .zero :: r => let (as, p) := compItems (k + 1) none r; (flush pend ++ .zero k :: as, p)
+    if bs = [] then comp k pend r
+    else flush pend ++ bs.map (fun c => Atom.byte c.toNat) ++ comp k none r
+  | .jump j :: r => flush pend ++ j.atom :: comp k none r
+  | .save :: r => flush pend ++ .save k :: comp (k + 1) none r
+  | .aligned n :: r => flush pend ++ .aligned n :: comp k none r
+  | .readI w :: r => flush pend ++ readAtom true w k :: comp (k + 1) none r
+  | .readU w :: r => flush pend ++ readAtom false w k :: comp (k + 1) none r
+  | .zero :: r => flush pend ++ .zero k :: comp (k + 1) none r
   | .group j _ body :: r =>
-    let (bs, bp) := compItems k none body
-    let (as, p) := compItems (slotsItems k body) none r
-    (flush pend ++ .push j.push :: j.atom :: (bs ++ flush bp ++ .pop :: as), p)
+    flush pend ++ .push j.push :: j.atom :: (comp k none body ++ .pop :: comp (slotsItems k body) none r)
   | .alt bodies :: r =>
-    let (as, p) := compItems (slotsAlts k bodies) none r
-    (flush pend ++ compAlts k bodies ++ as, p)
+    -- nothing is merged into the last alternative (`sub_end`): the rest starts with `pend = none`
+    flush pend ++ compAlts k bodies ++ comp (slotsAlts k bodies) none r
 /-- `Case n₁, A₁…, Break m₁, Case n₂, A₂…, Break m₂, …, Nop, Aₙ…` -/
 def compAlts (k : Nat) : List (List Item) → List Atom
   | [] => []
-  | [b] => let (bs, bp) := compItems k none b; .nop :: (bs ++ flush bp)
-  | b :: bs =>
-    let (cs, cp) := compItems k none b
-    let rest := compAlts k bs
-    .case ((cs ++ flush cp).length + 1) :: (cs ++ flush cp ++ .brk rest.length :: rest)
+  | [b] => .nop :: comp k none b
+  | b :: bs => .case ((comp k none b).length + 1) :: (comp k none b ++ .brk (compAlts k bs).length :: compAlts k bs)
 end
 
 /-- the complete code of a sequence -/
-def code (k : Nat) (items : List Item) : List Atom :=
-  let (as, p) := compItems k none items; as ++ flush p
+def code (k : Nat) (items : List Item) : List Atom := comp k none items
 
 /-- what the parser trims from the end -/
 def redundant : Atom → Bool
